@@ -31,6 +31,24 @@ def unwrap_try(e):
     return e
 
 
+def success_values(body):
+    """payloads of every `Ok(..)` (or returned call) definition of the return place that reaches the exit"""
+    out = []
+    ex = body.exits()
+    if not ex:
+        return out
+    for d in body.reaching_defs(0, ex[0], "term"):
+        e = ds(body.def_expr(0, d))
+        if isinstance(e, tuple) and e[0] == "agg" and e[1] == "std::result::Result":
+            if e[2] == "Ok":
+                out.append((d, e[3][0]))
+        elif isinstance(e, tuple) and e[0] == "call" and e[1] != "from_residual":
+            out.append((d, e))
+        elif isinstance(e, tuple) and e[0] == "phi":
+            out.append((d, e))
+    return out
+
+
 class Recorder:
     """collects sympy questions so that one bridge call answers all of them"""
 
@@ -609,6 +627,12 @@ def rule_c06(ctx, prog, rule="R19"):
                               "lane kernel: lane producer ok=%s, weights producer ok=%s, step `%s` vs weighted_sum's `%s`"
                               % (lane_ok, w_ok, show(red["step"]), show(ws_red["step"]) if ws_red else "?"))
         ctx.ob("R13", "weighted_sum_axis/kernel-eq", ok, wsa.where(), detail, what="per-axis weighted sum is not the whole-array kernel per lane")
+        sv = success_values(wsa)
+        only_map = len(sv) == 1 and isinstance(sv[0][1], tuple) and sv[0][1][0] == "call" and sv[0][1][1] == "map_axis"
+        ctx.ob("R13", "weighted_sum_axis/single-success-value", only_map, wsa.where(),
+               "the only success value is map_axis(self, axis, lane kernel)" if only_map else
+               "weighted_sum_axis has %d success values: some inputs bypass the lane kernel" % len(sv),
+               what="per-axis sum bypasses the lane kernel for some inputs")
     except Unrecognised as ex:
         unrec(ctx, "R13", "weighted_sum_axis/kernel-eq", wsa.where(), ex)
     # weighted_mean = weighted_sum / Σ weights
@@ -640,6 +664,11 @@ def rule_c06(ctx, prog, rule="R19"):
                 detail = "= weighted_sum_axis(..)? with every element divided by weights.sum() (mirrors weighted_mean)" if ok else \
                     "target is per-axis sum=%s, closure `%s`, divisor is weights.sum()=%s" % (is_wsa, show(ret), dv_ok)
         ctx.ob("R13", "weighted_mean_axis/mirrors-weighted_mean", ok, wma.where(), detail, what="per-axis weighted mean differs from the whole-array form")
+        sv = success_values(wma)
+        one = len(sv) == 1
+        ctx.ob("R13", "weighted_mean_axis/single-success-value", one, wma.where(), "one success value" if one else
+               "weighted_mean_axis has %d success values: some inputs bypass the documented computation" % len(sv),
+               what="per-axis mean bypasses the kernel for some inputs")
     except Unrecognised as ex:
         unrec(ctx, "R13", "weighted_mean_axis/mirrors-weighted_mean", wma.where(), ex)
     rec.flush()
@@ -921,6 +950,13 @@ def rule_c07(ctx, prog, rule="R19"):
                     ok2 = lane and w_ok and d_ok and z_ok and ax
                     detail2 = "each lane → inner_weighted_var(lane, weights, ddof, zero) with the caller's weights and ddof" if ok2 else \
                         "lane=%s weights=%s ddof=%s zero=%s (self,axis)=%s" % (lane, w_ok, d_ok, z_ok, ax)
+        sv = success_values(wva)
+        only_map = len(sv) == 1 and isinstance(sv[0][1], tuple) and sv[0][1][0] == "call" and sv[0][1][1] == "map_axis"
+        ctx.ob("R13", "weighted_var_axis/single-success-value", only_map, wva.where(),
+               "the only success value is map_axis(self, axis, lane kernel)" if only_map else
+               "weighted_var_axis has %d success values (%s): some inputs bypass the lane kernel, so the per-axis result is not the "
+               "whole-array routine applied to the lane" % (len(sv), "; ".join(fmt(v)[:70] for _, v in sv)),
+               what="per-axis variance bypasses the lane kernel for some inputs")
         ctx.ob("R13", "weighted_var/kernel-call", ok1, wv.where(), "= inner_weighted_var(self, weights, ddof, zero)" if ok1 else
                "weighted_var does not hand (self, weights, ddof) to the kernel unchanged", what="whole-array variance kernel arguments")
         ctx.ob("R13", "weighted_var_axis/lane-kernel", ok2, wva.where(), detail2, what="per-axis variance is not the whole-array kernel per lane")
